@@ -149,7 +149,7 @@ def stream(tier):
     S = []
 
     def add(name, sp, expect="any"):
-        sp["timeout"] = 900
+        sp["timeout"] = 600
         S.append((name, sp, expect))
 
     add("lsn orth fpol", gridlab.tokamak_spec("lsn", fpol="linear", pressure="parab"))
@@ -182,6 +182,37 @@ def stream(tier):
         add("lsn reversed psi", gridlab.tokamak_spec("lsn", fpol="negconst", psi_sign=-1.0))
         add("lsn coarse fine contour", gridlab.tokamak_spec("lsn", options={"finecontour_Nfine": 8}, fpol="const"))
         add("lsn loose refine", gridlab.tokamak_spec("lsn", options={"refine_atol": 1e-3}, fpol="const"))
+    # random points of the option space (mostly valid values, some at the edge of what can be gridded)
+    rng = vlib.rng("C12-stream")
+    for k in range(4 if tier == "quick" else 40):
+        geo = rng.choice(["lsn", "lsn", "usn", "cdn", "ldn", "udn"])
+        o = {"nx_core": rng.randint(1, 4), "nx_sol": rng.randint(1, 4), "ny_inner_divertor": rng.randint(1, 6), "ny_outer_divertor": rng.randint(1, 6),
+             "ny_sol": rng.randint(2, 12), "y_boundary_guards": rng.choice([0, 1, 1, 2]),
+             "psinorm_core": rng.choice([0.8, 0.9, 0.95, 0.99]), "psinorm_sol": rng.choice([1.02, 1.1, 1.2])}
+        if geo in ("ldn", "udn"):
+            o.update(nx_inter_sep=rng.choice([0, 1, 2]), psinorm_sol=rng.choice([1.1, 1.2, 1.3]))
+        if rng.random() < 0.3:
+            o["psi_interpolation_method"] = "dct"
+        if rng.random() < 0.3:
+            o["poloidal_spacing_method"] = rng.choice(["sqrt", "monotonic", "linear"])
+        if rng.random() < 0.3:
+            o["curvature_type"] = rng.choice(["curl(b/B)", "curl(b/B) with x-y derivatives", "bxkappa"])
+        if rng.random() < 0.2:
+            o["curvature_smoothing"] = "smoothnl"
+        if rng.random() < 0.2:
+            o["shiftedmetric"] = False
+        if rng.random() < 0.3:
+            o["xpoint_poloidal_spacing_length"] = rng.choice([0.01, 0.05, 0.3])
+        if rng.random() < 0.3:
+            o["target_all_poloidal_spacing_length"] = rng.choice([0.05, 0.3, 2.0])
+        if rng.random() < 0.3:
+            o["psi_spacing_separatrix_multiplier"] = rng.choice([0.2, 0.5, 2.0])
+        kw = {"fpol": rng.choice(["const", "linear", "negconst", None]), "pressure": rng.choice([None, "parab"])}
+        if rng.random() < 0.25 and geo in ("cdn", "ldn", "udn"):
+            o["orthogonal"] = False
+        if rng.random() < 0.2:
+            kw["psi_sign"] = -1.0
+        add("random %d: %s %s %s" % (k, geo, {a: b for a, b in sorted(o.items())}, {a: b for a, b in kw.items() if b not in (None,)}), gridlab.tokamak_spec(geo, options=o, **kw))
     return S
 
 
